@@ -24,6 +24,10 @@ import (
 // predicts for the pinned code.  Oracle: never a panic (every case); MustReject
 // cases return an error.  RSA-wrapped cases are also delivered to the real
 // ServiceProvider.ParseXMLResponse inside an attacker-built EncryptedAssertion.
+// Round 2: the X509Data of an EncryptedKey is a class described by its certificates (algorithm,
+// modulus identity, public exponent, lexical form) and the key value has a Go type AND a shape
+// (what an *rsa.PrivateKey holds); both are concretised in c11_helpers_test.go.  Key values
+// that can be a ServiceProvider.Key are also delivered through a service provider holding them.
 
 type c11Why struct {
 	Alg     bool `json:"alg"`
@@ -35,16 +39,17 @@ type c11Why struct {
 	Gcm     bool `json:"gcm"`
 }
 type c11Vec struct {
-	Model    string   `json:"model"`
+	Model    string `json:"model"`
 	alt      []*c11Vec
-	Fam      string   `json:"fam"`
-	Via      string   `json:"via"`
-	El       xeEl     `json:"el"`
-	Key      xeVal    `json:"key"`
-	Class    string   `json:"class"`
-	Baseline bool     `json:"baseline"`
-	Why      []c11Why `json:"why"`
-	Pred     c10Out   `json:"pred"`
+	Fam      string    `json:"fam"`
+	Via      string    `json:"via"`
+	El       xeEl      `json:"el"`
+	Key      c11KeyVal `json:"key"`
+	Class    string    `json:"class"`
+	Baseline bool      `json:"baseline"`
+	X509     []c11X509 `json:"x509"` // per level of path(): the X509Data of that level
+	Why      []c11Why  `json:"why"`
+	Pred     c10Out    `json:"pred"`
 }
 
 type c11Obs struct {
@@ -124,6 +129,12 @@ func (v *c11Vec) id() string {
 }
 
 func (v *c11Vec) panicKey(prefix string) string {
+	// a key value of an unusual Go type / shape: the abstract case is that key value x the algorithm
+	// of the level it is handed to (the innermost level Decrypt visits)
+	if v.Key.unusual() {
+		p := v.path()
+		return fmt.Sprintf("%skey=%s:alg=%s", prefix, v.Key.name(), p[len(p)-1].Em)
+	}
 	if a := refBlockByName(v.El.Em); a != nil && v.El.Cv == "ok" {
 		return prefix + c11PanicCase(a, v.dataKeyLen(), v.El.Len)
 	}
@@ -145,13 +156,19 @@ func (v *c11Vec) rejectKey() (string, string) {
 		case w.Digest:
 			return fmt.Sprintf("why=%s.digest:alg=%s", lvl, e.Em), "unknown digest identifier"
 		case w.Key:
-			k := v.Key.T + "/" + fmt.Sprint(v.Key.Len)
+			k := v.Key.name()
 			if i < len(p)-1 {
 				k = "wrapped/" + v.dataKeyLen()
 			}
 			return fmt.Sprintf("why=%s.key:alg=%s:key=%s", lvl, e.Em, k), "key of the wrong type or size"
 		case w.Cert:
-			return fmt.Sprintf("why=%s.cert:alg=%s:cert=%s:key=%s", lvl, e.Em, e.Cert, v.Key.ID), "embedded certificate does not match the supplied private key"
+			kn := v.Key.ID
+			if v.Key.Shape != "" && v.Key.Shape != "std" {
+				kn += "/" + v.Key.Shape
+			} else if v.Key.T != "rsa" {
+				kn += "/" + v.Key.T
+			}
+			return fmt.Sprintf("why=%s.cert:alg=%s:cert=%s:key=%s", lvl, e.Em, e.Cert, kn), "embedded certificate does not match the supplied private key"
 		case w.Length:
 			return fmt.Sprintf("why=%s.length:alg=%s:len=%s", lvl, e.Em, c11LenClass(refBlockByName(e.Em), e.Len)), "cipher value truncated / not block aligned / empty"
 		case w.Padding:
@@ -172,24 +189,15 @@ func (v *c11Vec) rejectKey() (string, string) {
 }
 
 type c11KeyDesc struct {
-	T   string `json:"t"`
-	ID  string `json:"id"`
-	B64 string `json:"b64,omitempty"`
+	T     string `json:"t"`
+	ID    string `json:"id"`
+	Shape string `json:"shape,omitempty"`
+	B64   string `json:"b64,omitempty"`
 }
 
 func (d c11KeyDesc) value() any {
 	b, _ := base64.StdEncoding.DecodeString(d.B64)
-	switch d.T {
-	case "bytes":
-		return b
-	case "string":
-		return string(b)
-	case "rsa":
-		return key(d.ID).RSA()
-	case "ecdsa":
-		return key("ec256").ECDSA()
-	}
-	return nil
+	return c11GoKey(c11KeyVal{T: d.T, ID: d.ID, Shape: d.Shape, Len: len(b)}, b)
 }
 
 type c11Run struct {
@@ -242,10 +250,12 @@ func c11Response(ed *etree.Element, sibling bool) []byte {
 		Destination: sp(spACS), Issuer: sp(idpEntityID), Status: sp(statusOK), Assertions: []*etree.Element{ea}}))
 }
 
-func c11RunSP(doc []byte) c11Obs {
+func c11RunSP(doc []byte) c11Obs { return c11RunSPWith(c11SP(), doc) }
+
+func c11RunSPWith(prov *saml.ServiceProvider, doc []byte) c11Obs {
 	var o c11Obs
 	p, msg := safely(func() {
-		a, err := c11SP().ParseXMLResponse(doc, []string{"id-req-1"}, mustURL(spACS))
+		a, err := prov.ParseXMLResponse(doc, []string{"id-req-1"}, mustURL(spACS))
 		if err != nil {
 			o = c11Obs{K: "error"}
 			if ire, ok := err.(*saml.InvalidResponseError); ok && ire.PrivateErr != nil {
@@ -266,15 +276,19 @@ func c11RunSP(doc []byte) c11Obs {
 func c11Execute(v *c11Vec, rng *rand.Rand) *c11Run {
 	r := &c11Run{SP: map[string]c11Obs{}, SPXML: map[string]string{}}
 	ctx := newXeCtx(rng)
-	el := ctx.build(v.El, "EncryptedData")
+	el := c11Build(ctx, v)
 	root, xmlb, err := reparse(el)
 	if err != nil {
 		panic("harness: built element does not parse: " + err.Error())
 	}
 	r.XML = string(xmlb)
 	var got []byte
-	kval := ctx.keyValue(v.Key)
-	r.KeyDesc = c11KeyDesc{T: v.Key.T, ID: v.Key.ID}
+	var octets []byte
+	if v.Key.T == "bytes" || v.Key.T == "string" {
+		octets = ctx.val(v.Key.ID, v.Key.Len)
+	}
+	kval := c11GoKey(v.Key, octets)
+	r.KeyDesc = c11KeyDesc{T: v.Key.T, ID: v.Key.ID, Shape: v.Key.Shape}
 	switch x := kval.(type) {
 	case []byte:
 		r.KeyDesc.B64 = base64.StdEncoding.EncodeToString(x)
@@ -282,16 +296,34 @@ func c11Execute(v *c11Vec, rng *rand.Rand) *c11Run {
 		r.KeyDesc.B64 = base64.StdEncoding.EncodeToString([]byte(x))
 	}
 	r.Direct, got = c11Decrypt(kval, root)
-	if v.El.Ct.K == "blk" {
+	switch v.El.Ct.K {
+	case "blk":
 		want := ctx.val(v.El.Ct.Pt.ID, v.El.Ct.Pt.Len)
 		r.WantLen = len(want)
 		r.Match = r.Direct.K == "plaintext" && string(got) == string(want)
+	case "wrap": // an EncryptedKey on its own: the plaintext is the wrapped key
+		want := ctx.val(v.El.Ct.Payload.ID, v.El.Ct.Payload.Len)
+		r.WantLen = len(want)
+		r.Match = r.Direct.K == "plaintext" && string(got) == string(want)
 	}
-	if v.Via == "rsa" && v.Key.T == "rsa" && v.Key.ID == "sp" {
+	// the same element posted to a service provider: the one holding the standard sp key, or, for key
+	// values of other shapes / types that can be a ServiceProvider.Key (crypto.Signer), one holding that value
+	var prov func() *saml.ServiceProvider
+	if v.Via == "rsa" {
+		switch {
+		case v.Key.T == "rsa" && v.Key.ID == "sp" && !v.Key.unusual():
+			prov = c11SP
+		case v.Key.unusual() || v.Fam == "kshape":
+			if c11SPWithKey(c11GoKey(v.Key, nil)) != nil {
+				prov = func() *saml.ServiceProvider { return c11SPWithKey(c11GoKey(v.Key, nil)) }
+			}
+		}
+	}
+	if prov != nil {
 		for _, mode := range []string{"nested", "sibling"} {
 			doc := c11Response(el, mode == "sibling")
 			r.SPXML[mode] = string(doc)
-			r.SP[mode] = c11RunSP(doc)
+			r.SP[mode] = c11RunSPWith(prov(), doc)
 		}
 	}
 	return r
@@ -309,7 +341,15 @@ type c11Mut struct {
 }
 
 func c11KeyPool(rng *rand.Rand) (any, string) {
-	switch rng.Intn(9) {
+	switch rng.Intn(13) {
+	case 9:
+		return c11ShapedRSA(merlinKey(), "noprimes"), "rsa:merlin:noprimes"
+	case 10:
+		return c11ShapedRSA(merlinKey(), "noprecomp"), "rsa:merlin:noprecomp"
+	case 11:
+		return c11GoKey(c11KeyVal{T: "rsa", ID: "sp", Shape: "noprimes"}, nil), "rsa:sp:noprimes"
+	case 12:
+		return c11GoKey(c11KeyVal{T: "signer", ID: "sp"}, nil), "signer:sp"
 	case 0:
 		return merlinKey(), "rsa:merlin"
 	case 1:
@@ -489,7 +529,11 @@ func c11MutationRun(n int, rep *Report) []c11Mut {
 		o, _ := c11Decrypt(k, tdoc.Root())
 		m := c11Mut{File: names[s], XML: xmls, Key: kname, Obs: o}
 		if o.K == "panic" {
-			m.PKey = c11ConcretePanicKey(tdoc.Root(), k)
+			if strings.Count(kname, ":") == 2 { // a key value with a shape: that is the abstract case
+				m.PKey = "C11:panic:mutation:key=" + kname
+			} else {
+				m.PKey = c11ConcretePanicKey(tdoc.Root(), k)
+			}
 		}
 		out[i] = m
 	})
@@ -501,7 +545,7 @@ func c11MutationRun(n int, rep *Report) []c11Mut {
 func TestC11(t *testing.T) {
 	rep := NewReport("C11")
 	defer rep.Finish(t)
-	rep.Rule = "every terminal state of spec/XmlEnc.tla family C11 (per algorithm every CipherValue length 0..IV+4 blocks+1(+tag) x final-byte representative {0,1,bs,bs+1,n-1,n,n+1,255} / GCM region modified, direct and RSA-wrapped keys incl. 8-octet 3DES keys; EncryptionMethod / CipherData / DigestMethod / certificate / nesting / repetition variants; key values of every Go type) is concretised with random contents and given to xmlenc.Decrypt, RSA-wrapped ones also to ServiceProvider.ParseXMLResponse inside an unsigned Response (EncryptedKey nested and as sibling); plus structure-aware mutations of xmlenc/corpus, crashers and testdata; oracle: no panic, MustReject => error; non-trivial = MustReject cases and baseline cases that decrypt"
+	rep.Rule = "every terminal state of spec/XmlEnc.tla family C11 (per algorithm every CipherValue length 0..IV+4 blocks+1(+tag) x final-byte representative {0,1,bs,bs+1,n-1,n,n+1,255} / GCM region modified, direct and RSA-wrapped keys incl. 8-octet 3DES keys; EncryptionMethod / CipherData / DigestMethod / nesting / repetition variants; X509Data classes described by their certificates: none, X509Data without certificate, the key's certificate, other modulus, same modulus with public exponent 3, RSA of another size, EC, not a certificate, line-wrapped / indented base64, two certificates in either order; key values by Go type and shape: []byte of eight sizes incl. nil and empty slice, nil, string, *ecdsa.PrivateKey, ed25519.PrivateKey, *rsa.PublicKey, rsa.PrivateKey value, a crypto.Signer/Decrypter around the key, *rsa.PrivateKey as parsed / without Precomputed / with N,E,D only / with a wrong D / without D / zero value / nil pointer, these crossed with the three RSA key transports x EncryptedKey alone or nested x valid, undecodable, absent, junk cipher value x certificate absent, matching, same-modulus-other-exponent) is concretised with random contents and given to xmlenc.Decrypt, RSA-wrapped ones also to ServiceProvider.ParseXMLResponse inside an unsigned Response (EncryptedKey nested and as sibling; the service provider holds the sp key or, for key values that are a crypto.Signer, that key value); plus structure-aware mutations of xmlenc/corpus, crashers and testdata; oracle: no panic, MustReject => error; non-trivial = MustReject cases and baseline cases that decrypt"
 	lines := loadLines(t, "vectors.ndjson")
 	if len(lines) == 0 {
 		rep.Break("no vectors")
@@ -573,8 +617,8 @@ func TestC11(t *testing.T) {
 		}
 		// 1. totality
 		if r.Direct.K == "panic" {
-			rep.Violation(v.panicKey("C11:panic:"), fmt.Sprintf("xmlenc.Decrypt panicked (%s; element %s, CipherValue of %d octets, key %s/%d): %s",
-				v.Fam, v.El.Em, v.El.Len, v.Key.T, v.Key.Len, r.Direct.Detail), replay(r.Direct, r.XML, "decrypt"))
+			rep.Violation(v.panicKey("C11:panic:"), fmt.Sprintf("xmlenc.Decrypt panicked (%s; element %s, CipherValue of %d octets, key %s): %s",
+				v.Fam, v.El.Em, v.El.Len, v.Key.name(), r.Direct.Detail), replay(r.Direct, r.XML, "decrypt"))
 		} else if cls == "MustReject" && r.Direct.K != "error" {
 			// 2. rejection
 			k, what := v.rejectKey()
@@ -615,8 +659,8 @@ func TestC11(t *testing.T) {
 				rep.Violation("C11:panic:sp:plaintext-without-root-element", fmt.Sprintf("ServiceProvider.ParseXMLResponse panicked after decrypting an attacker-built EncryptedAssertion whose plaintext (%d octets) is not an XML element (unsigned Response; %s, CipherValue of %d octets): %s",
 					r.Direct.N, v.El.Em, v.El.Len, o.Detail), replay(o, r.SPXML[mode], "sp"))
 			} else if o.K == "panic" {
-				rep.Violation(v.panicKey("C11:panic:sp:"), fmt.Sprintf("ServiceProvider.ParseXMLResponse panicked on an unsigned Response with an attacker-built EncryptedAssertion (%s, EncryptedKey %s; data %s, CipherValue of %d octets): %s",
-					v.Fam, mode, v.El.Em, v.El.Len, o.Detail), replay(o, r.SPXML[mode], "sp"))
+				rep.Violation(v.panicKey("C11:panic:sp:"), fmt.Sprintf("ServiceProvider.ParseXMLResponse panicked on an unsigned Response with an attacker-built EncryptedAssertion (%s, EncryptedKey %s; data %s, CipherValue of %d octets; ServiceProvider.Key %s): %s",
+					v.Fam, mode, v.El.Em, v.El.Len, v.Key.name(), o.Detail), replay(o, r.SPXML[mode], "sp"))
 			} else if o.K != "error" {
 				rep.Violation("C11:sp:accepted:"+id, "ParseXMLResponse returned an assertion from an unsigned Response carrying the attacker-built EncryptedAssertion: "+o.Detail, replay(o, r.SPXML[mode], "sp"))
 			}
@@ -669,6 +713,12 @@ func TestC11(t *testing.T) {
 
 func c11NamedKey(name string) any {
 	switch {
+	case name == "rsa:merlin:noprimes", name == "rsa:merlin:noprecomp":
+		return c11ShapedRSA(merlinKey(), strings.TrimPrefix(name, "rsa:merlin:"))
+	case name == "rsa:sp:noprimes":
+		return c11GoKey(c11KeyVal{T: "rsa", ID: "sp", Shape: "noprimes"}, nil)
+	case name == "signer:sp":
+		return c11GoKey(c11KeyVal{T: "signer", ID: "sp"}, nil)
 	case name == "rsa:merlin":
 		return merlinKey()
 	case name == "rsa:sp":
@@ -707,7 +757,13 @@ func init() {
 			doc.Root().RemoveAttr("IssueInstant")
 			doc.Root().CreateAttr("IssueInstant", time.Now().UTC().Format("2006-01-02T15:04:05Z"))
 			b, _ := doc.WriteToBytes()
-			o := c11RunSP(b)
+			prov := c11SP()
+			if kv := (c11KeyVal{T: r.KeyVal.T, ID: r.KeyVal.ID, Shape: r.KeyVal.Shape}); kv.unusual() || kv.T != "rsa" {
+				if p := c11SPWithKey(r.KeyVal.value()); p != nil {
+					prov = p
+				}
+			}
+			o := c11RunSPWith(prov, b)
 			return o.K != "error", o.K + " " + o.Detail
 		case "mutation":
 			doc := etree.NewDocument()
